@@ -291,6 +291,7 @@ func ChainPEM(cs ...*Cert) []byte {
 type CRLSpec struct {
 	Revoked    [][]byte    // serial numbers (big-endian)
 	RevokedAt  []time.Time // per-entry revocation time (missing / zero = ThisUpdate); the date of an entry is informational
+	Reasons    []int       // per-entry CRL reason code (missing / 0 = no reason extension); a listed serial is revoked whatever the reason says
 	ThisUpdate time.Time
 	NextUpdate time.Time
 	Number     int64
@@ -311,7 +312,11 @@ func MakeCRL(issuer *Cert, key *Key, cs CRLSpec) []byte {
 		if i < len(cs.RevokedAt) && !cs.RevokedAt[i].IsZero() {
 			at = cs.RevokedAt[i]
 		}
-		entries = append(entries, x509.RevocationListEntry{SerialNumber: new(big.Int).SetBytes(s), RevocationTime: at})
+		e := x509.RevocationListEntry{SerialNumber: new(big.Int).SetBytes(s), RevocationTime: at}
+		if i < len(cs.Reasons) {
+			e.ReasonCode = cs.Reasons[i]
+		}
+		entries = append(entries, e)
 	}
 	tmpl := &x509.RevocationList{
 		SignatureAlgorithm:        x509.ECDSAWithSHA256,
